@@ -71,6 +71,24 @@ var harnesses = map[string]*Harness{
 		},
 		GoMaxProcs: 2,
 	},
+	"h2sched": {
+		PkgDir:   zz + "h2sched",
+		TestName: "TestVerifH2",
+		Files: map[string]string{
+			zz + "h2sched/h2sched_test.go": "harness/h2sched/h2sched_test.go",
+			zz + "pvmasm/asm.go":           "harness/pvmasm/asm.go",
+		},
+		Instrument: []InstrSpec{
+			{File: "internal/accumulation/accumulation.go", Opt: instrument.Options{Yield: true, MapOrder: true, MinLock: 4, MinGo: 3, MinMap: 6}},
+			{File: "internal/accumulation/deferred_transfers.go", Opt: instrument.Options{MapOrder: true}},
+			{File: "internal/accumulation/extrinsic_preimage.go", Opt: instrument.Options{MapOrder: true}},
+			{File: "PVM/accumulate_invocation.go", Opt: instrument.Options{MapOrder: true, MinMap: 3}},
+			{File: "PVM/host_call_invocation.go", Opt: instrument.Options{Yield: true, LoopYieldFuncs: []string{"HostCall"}}},
+			{File: "PVM/host_call_accumulate.go", Opt: instrument.Options{MapOrder: true}},
+			{File: "PVM/host_call_general.go", Opt: instrument.Options{MapOrder: true}},
+		},
+		GoMaxProcs: 2,
+	},
 	"h3acc": {
 		PkgDir:   zz + "h3acc",
 		TestName: "TestVerifH3",
@@ -100,6 +118,21 @@ var harnesses = map[string]*Harness{
 }
 
 var checks = []Check{
+	{
+		Property: "C22", Harness: "h2sched", Level: "exploration",
+		Quick:        tierCfg{budget: 50, shrink: 150},
+		Thorough:     tierCfg{budget: 1200, shrink: 1500},
+		RunTimeoutS:  120,
+		Rule:         "one evaluation = one generated accumulation round (3-8 services with generated code that stores the encoding of all items it is given, in the order presented, and emits 0-20 transfers each - in two runs of three more than a dozen transfers from several senders converge on one receiver; 1-6 work reports; privileged services that re-bless / re-assign) executed 1+5 times (1+12 thorough) through the real OuterAccumulation under different goroutine schedules, types.MaxWorkers in {1,2,3,16} and map iteration orders; non-trivial = >= 3 services and some receiver gets >= 2 transfers; distinct = hash of the baseline posterior state",
+		Real:         []string{"internal/accumulation.OuterAccumulation / ParallelizedAccumulation / SingleServiceAccumulation / Provide (accumulation.go instrumented: errgroup, RWMutex, singleflight seams + range-over-map seam)", "PVM.Psi_A with the whole interpreter and host calls (host_call_invocation.go instrumented: one scheduling point per host call; accumulate_invocation.go, host_call_*.go: range-over-map seam)", "blockchain.ChainState singleton (posterior store, unmatched key-values)"},
+		Stub:         []string{"goroutine scheduling = harness scheduler inside a testing/synctest bubble", "Go map iteration order in the instrumented files = tape-chosen permutation of the sorted keys", vrfStub + " (compile only)"},
+		Assumptions:  []string{"map iteration in files that are not instrumented keeps Go's own randomisation; an order dependence there would show up as a non-replaying difference (reported as infrastructure error, never as a violation)", "the race detector is not used: under the serialising scheduler every access is ordered, so it could not see unsynchronised accesses"},
+		LevelText:    "seeded exploration of schedules x worker-pool sizes x map iteration orders for generated accumulation rounds; all executions of one round must produce the byte-identical canonical posterior state (accounts incl. the order each service observed, privileges, queues, outputs, per-service gas statistics, raw key-values); evidence, not proof",
+		LevelNote:    "trusted: the AST instrumenter preserves behaviour; canonical dump is harness code; baseline arm = one worker, sorted map order, first-runnable schedule",
+		Technique:    "deterministic simulation: seeded scheduler over real goroutines (synctest bubble + errgroup/lock/singleflight/host-call seams), simulated map iteration order and worker-pool knob, N-version comparison of posterior states, tape shrinking + fresh-process replay",
+		DesignRef:    "DESIGN.md §3.3, §4 H2, §5 C22",
+		ExpectProbes: []string{"probe:receiver_with_more_than_a_dozen_transfers", "arm:workers=1", "arm:workers=2", "arm:workers=3", "arm:workers=16", "fault:schedule_decisions"},
+	},
 	{
 		Property: "C10", Harness: "h3acc", Level: "fault_enumeration",
 		Quick:        tierCfg{budget: 40, shrink: 300},
